@@ -107,6 +107,10 @@ def trig_has_latin_square(case):
     return _has_con(case, "LatinSquare")
 
 
+def trig_has_minimum_trials(case):
+    return _has_con(case, "MinimumTrials")
+
+
 def trig_repeat_or_merge(case):
     return any(b["op"] in ("Repeat", "Merge") for b in _all_blocks(case["block"]))
 
@@ -137,6 +141,7 @@ TRIGGERS = {
     "has_sequential": trig_has_sequential,
     "has_latin_square": trig_has_latin_square,
     "repeat_or_merge": trig_repeat_or_merge,
+    "has_minimum_trials": trig_has_minimum_trials,
     "uncrossed_transition": trig_uncrossed_transition,
     "derived_of_complex": trig_derived_of_complex,
     "any": trig_any,
